@@ -187,8 +187,12 @@ def explore(ctx):
         except ValueError:
             pass
     planted = unknown_function_queries(rng, 200 if quick else 4000)
-    static_errors = set(STATIC_ERRORS) | set(planted)
-    queries = list(base) + list(STATIC_ERRORS) + planted
+    # a statically wrong stage stays wrong whatever VALID stages follow it (an aggregate, a sort, a limit after it
+    # must not make the error go away)
+    followed = [q + t for q in STATIC_ERRORS if q.startswith('* | ') for t in (' | count', ' | count by k | sort by k', ' | sum(a) as s | limit 1')]
+    planted += [q + ' | count by k' for q in planted[:60]]
+    static_errors = set(STATIC_ERRORS) | set(planted) | set(followed)
+    queries = list(base) + list(STATIC_ERRORS) + planted + followed
     for i in range(n):
         queries.append(mutate(rng, rng.choice(base)))
     # text left over at the very end of a query whose earlier part contains multi-byte characters (offsets in bytes
@@ -278,6 +282,6 @@ def explore(ctx):
                 'non-trivial = a non-ASCII query or one with >= 3 stages',
         'samples': [{'query': q} for q in queries[len(base) + len(STATIC_ERRORS):len(base) + len(STATIC_ERRORS) + 4]],
         'implementation_outcomes': kinds, 'accept_reject_agreements': agree, 'unmodelled': unmodelled, 'behaviour_compared': behaved,
-        'static_errors_checked': len(STATIC_ERRORS), 'planted_unknown_function_queries': len(planted), 'valid_queries_checked': len(STATIC_OK),
+        'static_errors_checked': len(STATIC_ERRORS), 'static_errors_followed_by_valid_stages': len(followed), 'planted_unknown_function_queries': len(planted), 'valid_queries_checked': len(STATIC_OK),
     }
     return {'coverage': cov, 'failures': failures}
